@@ -244,6 +244,69 @@ vf_rb_post_inc_step(const r_buf_t *r, size_t idx, size_t off, size_t round, size
 	return (rp->iov_index == 0 && rp->iov_off == 0 && rp->round_num == r->round_num);
 }
 
+/* ------------------------------------------------------ iovec_aggregate_ex ---- */
+/* ghost: the ring whose storage the blocks given to iovec_aggregate_ex lie in */
+extern const r_buf_t *vf_rb_gring;
+
+/* every block inside the ghost ring, the offset inside the first block */
+static inline int
+vf_rb_agg_pre(const iovec_t *iov, size_t iov_cnt, size_t off) {
+	size_t i;
+
+	if (iov_cnt > VF_RB_IOVN)
+		return (0);
+	for (i = 0; i < iov_cnt; i ++) {
+		if (!vf_rb_inside(vf_rb_gring, iov[i].iov_base, iov[i].iov_len))
+			return (0);
+	}
+	/* the first block has bytes left when more blocks follow (cursor offsets are < length) */
+	return (iov_cnt == 0 || (off <= iov[0].iov_len && (iov_cnt == 1 || off < iov[0].iov_len)));
+}
+
+/*
+ * iovec_aggregate_ex gathers WHOLE blocks, in order, from the first one (which counts from
+ * `off`): the bytes consumed, data_size - *reminder, are the total of a prefix of m blocks;
+ * the result describes exactly these bytes: starts at iov[0].iov_base + off, every entry
+ * inside the ring, lengths summing up to the consumed bytes; nothing returned <=> nothing
+ * consumed; asking for more than all blocks hold, with room for all of them, takes all.
+ */
+static inline int
+vf_rb_post_agg(const iovec_t *iov, size_t iov_cnt, size_t data_size, size_t off,
+    const iovec_t *ret, size_t ret_cnt, size_t n, const size_t *rem) {
+	size_t i, acc, sum, consumed, total;
+	int prefix;
+
+	if ((*rem) > data_size || n > ret_cnt)
+		return (0);
+	consumed = data_size - (*rem);
+	if ((n == 0) != (consumed == 0))
+		return (0);
+	acc = 0;
+	prefix = (consumed == 0);
+	for (i = 0; i < iov_cnt && i < VF_RB_IOVN; i ++) {
+		acc += iov[i].iov_len - ((i == 0) ? off : 0);
+		if (acc == consumed)
+			prefix = 1;
+	}
+	total = acc;
+	if (!prefix)
+		return (0);
+	sum = 0;
+	for (i = 0; i < n && i < VF_RB_IOVN; i ++) {
+		if (!vf_rb_inside(vf_rb_gring, ret[i].iov_base, ret[i].iov_len))
+			return (0);
+		sum += ret[i].iov_len;
+	}
+	if (n > VF_RB_IOVN || sum != consumed)
+		return (0);
+	if (n > 0 && ret[0].iov_base != iov[0].iov_base + off)
+		return (0);
+	if (iov_cnt != 0 && data_size > total && ret_cnt >= iov_cnt && total != 0 &&
+	    !(iov_cnt == 1 && total == 0))
+		return (consumed == total);
+	return (1);
+}
+
 #ifndef VF_REPLAY
 /* ------------------------------------------------------------------ contracts ---- */
 #define VF_RB_FRAME_W(r)							\
@@ -311,6 +374,22 @@ __CPROVER_assigns(drop_size_ret != NULL: *drop_size_ret)
 __CPROVER_ensures(vf_rb_post_rpos_check(r_buf, __CPROVER_old(rpos->iov_index),
     __CPROVER_old(rpos->iov_off), __CPROVER_old(rpos->round_num), __CPROVER_return_value,
     rpos, drop_size_ret, vf_rb_old_drop))
+;
+
+static size_t
+iovec_aggregate_ex(iovec_p iov, size_t iov_cnt, size_t data_size, size_t off,
+    iovec_p ret, size_t ret_cnt, size_t *reminder_data_size_ret)
+__CPROVER_requires(vf_rb_gring != NULL && vf_rb_wf(vf_rb_gring))
+__CPROVER_requires(iov_cnt <= VF_RB_IOVN &&
+    (iov_cnt == 0 || __CPROVER_r_ok(iov, iov_cnt * sizeof(iovec_t))))
+__CPROVER_requires(vf_rb_agg_pre(iov, iov_cnt, off))
+__CPROVER_requires(ret_cnt <= 2 * VF_RB_IOVN + 2 &&
+    (ret_cnt == 0 || __CPROVER_w_ok(ret, ret_cnt * sizeof(iovec_t))))
+__CPROVER_requires(__CPROVER_w_ok(reminder_data_size_ret, sizeof(size_t)))
+__CPROVER_assigns(ret_cnt != 0: __CPROVER_object_upto(ret, ret_cnt * sizeof(iovec_t)))
+__CPROVER_assigns(*reminder_data_size_ret)
+__CPROVER_ensures(vf_rb_post_agg(iov, iov_cnt, data_size, off, ret, ret_cnt,
+    __CPROVER_return_value, reminder_data_size_ret))
 ;
 
 /* ghost: set by the harness to vf_rb_rpos_valid() of the cursor before the call */
